@@ -1004,6 +1004,26 @@ def salt_counter(ctx, rep, rule):
         cut = {(w[0], s) for w in ws for s in enc.blocks[w[0]].succs()}
         # statements inside the same block: the write happens in block w[0]; leaving that block counts as crossing
         ok = bool(uses) and not (cfg.reachable(enc, uses, cut=cut) - {w[0] for w in ws}) & set(rets) if uses else False
+        # the whole counter goes on the wire: on its way into the message it is not masked or narrowed below the width of the
+        # RFC's field (RFC 3414: 32-bit local integer for DES; RFC 3826: 64 bits for AES) - fewer bits repeat sooner
+        need = 32 if adt == DES else 64
+        for blk in enc.live_blocks():
+            for st_ in blk.stmts:
+                if st_["k"] != "assign":
+                    continue
+                rv_ = st_["rv"]
+                if rv_["k"] == "bin" and rv_.get("op") == "BitAnd":
+                    for x_, y_ in ((rv_["a"], rv_["b"]), (rv_["b"], rv_["a"])):
+                        m_ = (y_.get("const", {}).get("v") or {}).get("int") if "const" in y_ else None
+                        if isinstance(m_, int) and flow.mentions(prov.operand(x_), lambda s_: fp(s_) == ("arg1", "salt_value")) and bin(m_ & ((1 << need) - 1)).count("1") < need:
+                            rep.violation(rule, "%s::encrypt|whole counter on the wire" % nm, "the salt counter is masked with 0x%x before it is copied into the message: "
+                                          "only %d of its %d bits reach the wire, the salt repeats after 2^%d messages" % (m_, bin(m_).count("1"), need, bin(m_).count("1")),
+                                          enc.loc(st_.get("line")), obligation=True)
+                if rv_["k"] == "cast" and rv_.get("ck") == "IntToInt" and "const" not in rv_["op"]:
+                    tt_ = facts.types[rv_["to"]]
+                    if tt_.get("k") == "int" and tt_["bits"] < need and flow.mentions(prov.operand(rv_["op"]), lambda s_: fp(s_) == ("arg1", "salt_value")):
+                        rep.violation(rule, "%s::encrypt|whole counter on the wire" % nm, "the salt counter is narrowed to %d bits before it is copied into the message "
+                                      "(the field holds %d)" % (tt_["bits"], need), enc.loc(st_.get("line")), obligation=True)
         if not uses:
             rep.inconclusive(rule, "%s::encrypt|no-exit-without-increment" % nm, "no read of salt_value found besides the increment", enc.loc())
         else:
